@@ -28,6 +28,8 @@
 #define C01_SCOPE 1
 #endif
 #include "vh.h"
+/* reference integers must hold the product of two 4-digit values (+ margin) */
+#define RL ((8 * BN_DIGIT_BIT_CNT) / 32 + 4)
 #include "ref.h"
 
 /* The library is header-only, so its calls to memmove/memset/memcpy can be routed through a
@@ -176,7 +178,7 @@ bn_denorm(const bn_p x) {
 
 /* ------------------------------------------------------------------ value sets */
 typedef struct { int kind; size_t n; R *arr; } vset_t;	/* kind 0: 0..n-1, kind 1: table */
-static vset_t VS_EX1, VS_EX2, VS_A2, VS_A3, VS_A4, VS_D, VS_DX;
+static vset_t VS_EX1, VS_EX2, VS_A2, VS_A3, VS_R4, VS_D, VS_DX;
 
 static void
 vs_get(const vset_t *s, size_t i, R *v) {
@@ -246,42 +248,67 @@ vs_digits(vset_t *s, int extended) {
 	}
 	s->n = n;
 }
+/* values of exactly 4 digits over the reduced alphabet {0, 1, MAX/2+1, MAX} (top digit non-zero) */
+static void
+vs_reduced4(vset_t *s) {
+	static const int sym[4] = { 0, 1, 4, 6 };
+	size_t c, n = 0; int i;
+	s->kind = 1; s->arr = (R *)calloc(256, sizeof(R));
+	for (c = 0; c < 256; c ++) {
+		R v, d; size_t t = c; int top = 0;
+		r_zero(&v);
+		for (i = 0; i < 4; i ++) { top = sym[t % 4]; t /= 4; alpha_digit(top, &d); r_shl(&d, &d, i * W); r_add(&v, &v, &d); }
+		if (0 == top) continue;
+		s->arr[n ++] = v;
+	}
+	s->n = n;
+}
 static void
 vsets_init(void) {
 	VS_EX1.kind = 0; VS_EX1.n = 256;
 	VS_EX2.kind = 0; VS_EX2.n = 65536;
 	vs_alpha(&VS_A2, 2);
 	vs_alpha(&VS_A3, 3);
-#if C01_SCOPE == 0
-	vs_alpha(&VS_A4, 4);
-#endif
+	vs_reduced4(&VS_R4);
 	vs_digits(&VS_D, 0);
 	vs_digits(&VS_DX, 1);
 }
 
-/* The operand-set pairs a binary operation is run over in this scope. */
-typedef struct { const vset_t *a, *b; } vpair_t;
-static vpair_t g_pairs[4];
+/* The operand-set pairs a binary operation is run over in this scope.
+ * lite: exhaustive sets - two capacities (tight, maximal), the stale fill alternates with the
+ *       second operand instead of running both fills; core: only add/sub/mult/div/cmp. */
+typedef struct { const vset_t *a, *b; int lite, core_only; } vpair_t;
+static vpair_t g_pairs[6];
 static int g_npairs = 0;
-static const vset_t *g_unary[3];
+typedef struct { const vset_t *a; int lite; } vun_t;
+static vun_t g_unary[4];
 static int g_nunary = 0;
 static const vset_t *g_small;	/* modest set for expensive operations */
 static void
+add_pair(const vset_t *a, const vset_t *b, int lite, int core_only) {
+	g_pairs[g_npairs].a = a; g_pairs[g_npairs].b = b; g_pairs[g_npairs].lite = lite; g_pairs[g_npairs ++].core_only = core_only;
+}
+static void
 scope_init(void) {
 #if C01_SCOPE == 0
-	g_pairs[g_npairs].a = &VS_EX2; g_pairs[g_npairs ++].b = &VS_EX1;
-	g_pairs[g_npairs].a = &VS_EX1; g_pairs[g_npairs ++].b = &VS_EX2;
-	g_pairs[g_npairs].a = &VS_A4;  g_pairs[g_npairs ++].b = &VS_A4;
-	g_unary[g_nunary ++] = &VS_EX2;
-	g_unary[g_nunary ++] = &VS_A4;
+	add_pair(&VS_EX2, &VS_EX1, 1, 1);
+	add_pair(&VS_EX1, &VS_EX2, 1, 1);
+	add_pair(&VS_EX1, &VS_EX1, 0, 0);
+	add_pair(&VS_A3, &VS_A3, 0, 0);
+	add_pair(&VS_R4, &VS_R4, 0, 0);
+	g_unary[g_nunary].a = &VS_EX2; g_unary[g_nunary ++].lite = 1;
+	g_unary[g_nunary].a = &VS_A3; g_unary[g_nunary ++].lite = 0;
+	g_unary[g_nunary].a = &VS_R4; g_unary[g_nunary ++].lite = 0;
 	g_small = &VS_A3;
 #elif C01_SCOPE == 1
-	g_pairs[g_npairs].a = &VS_A3;  g_pairs[g_npairs ++].b = &VS_A3;
-	g_unary[g_nunary ++] = &VS_A3;
+	add_pair(&VS_A3, &VS_A3, 0, 0);
+	add_pair(&VS_R4, &VS_R4, 0, 0);
+	g_unary[g_nunary].a = &VS_A3; g_unary[g_nunary ++].lite = 0;
+	g_unary[g_nunary].a = &VS_R4; g_unary[g_nunary ++].lite = 0;
 	g_small = &VS_A3;
 #else
-	g_pairs[g_npairs].a = &VS_A2;  g_pairs[g_npairs ++].b = &VS_A2;
-	g_unary[g_nunary ++] = &VS_A2;
+	add_pair(&VS_A2, &VS_A2, 0, 0);
+	g_unary[g_nunary].a = &VS_A2; g_unary[g_nunary ++].lite = 0;
 	g_small = &VS_A2;
 #endif
 }
@@ -298,11 +325,15 @@ vs_name(const vset_t *s) {
 	if (s == &VS_EX2) return ("all values < 2^16");
 	if (s == &VS_A2) return ("alphabet<=2 digits");
 	if (s == &VS_A3) return ("alphabet<=3 digits");
-	if (s == &VS_A4) return ("alphabet<=4 digits");
+	if (s == &VS_R4) return ("reduced alphabet, 4 digits");
 	return ("digits");
 }
 
 #define RC_OK(rc)	(0 == (rc))
+
+/* CPU time per operation group (NOTE time_ms_<name>=...; summed over shards by run.py) */
+#include <time.h>
+#define TIMED(name, call) do { clock_t _c = clock(); call; printf("NOTE\ttime_ms_%s=%ld\n", name, (long)((clock() - _c) * 1000 / CLOCKS_PER_SEC)); } while (0)
 
 #include "ops_arith.h"
 #include "ops_mod.h"
@@ -349,7 +380,7 @@ main(int argc, char **argv) {
 	run_arith();
 	run_mod();
 	run_io();
-	run_digit();
+	TIMED("digit", run_digit());
 
 	if (r_ovf) printf("NOTE\tref_overflow=1\n");	/* run.py turns this into a harness error */
 	calls_print();
